@@ -117,6 +117,7 @@ var glSpecs = []glSpec{
 	{"bucketteer", "", "readHeader", "bkReadHeader"},
 	{"bucketteer", "", "NewReader", "bkNewReader"},
 	{"bucketteer", "", "Hash", "bkHash"},
+	{"ipld/ipldbindcode", "", "VerifyHash", "framesVerifyHash"},
 	{"bucketteer", "", "readUint64Le", "bkReadUint64Le"},
 	{"bucketteer", "Reader", "Has", "bkReaderHas"},
 	{"gsfa/linkedlog", "uvarintReader", "ReadUvarint", "uvrReadUvarint"},
@@ -140,6 +141,9 @@ type glExtern struct {
 var glExterns = map[string]glExtern{
 	"github.com/cespare/xxhash/v2.Sum64": {param: "xxSum64", leanType: "List UInt8 → UInt64"},
 	"github.com/rpcpool/yellowstone-faithful/compactindexsized.EntryHash64": {param: "entryHash64", leanType: "UInt32 → List UInt8 → UInt64"},
+	// CRC-64/ISO and FNV-1a-64 come from the standard library: two arbitrary functions on byte strings
+	"github.com/rpcpool/yellowstone-faithful/ipld/ipldbindcode.checksumCrc64": {param: "crc64iso", leanType: "List UInt8 → UInt64"},
+	"github.com/rpcpool/yellowstone-faithful/ipld/ipldbindcode.checksumFnv":   {param: "fnv64a", leanType: "List UInt8 → UInt64"},
 	// zstd is third-party: an arbitrary partial function on byte strings
 	"github.com/rpcpool/yellowstone-faithful/tooling.DecompressZstd": {param: "zstdDecompress", leanType: "List UInt8 → M (List UInt8)", monadic: true},
 	// os.File.Stat().Size(): the size of the file behind the log, whatever the operating system says
@@ -147,7 +151,7 @@ var glExterns = map[string]glExtern{
 }
 
 // functions whose Go errors are data (they inspect, compare and return error VALUES such as io.EOF)
-var glErrData = map[string]bool{"scfMultiReadAt": true, "uvrReadUvarint": true, "uvrReadByte": true, "oassFromReader": true, "oassSliceFromBytes": true, "llDecompressIndexes": true, "llReadWithSize": true, "llRead": true, "bkReadUint64Le": true, "bkReaderHas": true, "bkIsReaderEmpty": true, "bkReadHeaderSize": true, "bkReadHeader": true, "bkNewReader": true, "ciOpen": true, "ciReadFrom": true, "ciGetBucket": true, "ciLoadEntry": true, "ciBucketLookup": true, "ciLookupBucket": true, "ciDBLookup": true}
+var glErrData = map[string]bool{"framesVerifyHash": true, "scfMultiReadAt": true, "uvrReadUvarint": true, "uvrReadByte": true, "oassFromReader": true, "oassSliceFromBytes": true, "llDecompressIndexes": true, "llReadWithSize": true, "llRead": true, "bkReadUint64Le": true, "bkReaderHas": true, "bkIsReaderEmpty": true, "bkReadHeaderSize": true, "bkReadHeader": true, "bkNewReader": true, "ciOpen": true, "ciReadFrom": true, "ciGetBucket": true, "ciLoadEntry": true, "ciBucketLookup": true, "ciLookupBucket": true, "ciDBLookup": true}
 
 var leanKeywords = map[string]bool{}
 
